@@ -119,9 +119,8 @@ func newUnbegun(d sopx.DB, mode sop.TransactionMode) (sop.Transaction, error) {
 }
 
 // setup: the seeded store's options are a pure function of VERIF_SEED (value placement in the node,
-// in a separate segment, or separate + globally cached; slot length 4 or 8). The actively persisted
-// profile is left out on purpose: it loses removes-only commits (found by C13's histories, belongs
-// to the atomicity properties) and would blur C14's data oracle.
+// in a separate segment, separate + globally cached, or separate + actively persisted; slot length 4
+// or 8 - with 4 the adds of a sequence split the root).
 type setup struct {
 	Profile sopx.Profile
 	Slot    int
@@ -129,7 +128,7 @@ type setup struct {
 
 func setupFor(seed int64) setup {
 	rnd := env.Rand(seed, "c14-setup")
-	return setup{Profile: []sopx.Profile{sopx.InNode, sopx.Separate, sopx.SepCached}[rnd.Intn(3)], Slot: []int{4, 8}[rnd.Intn(2)]}
+	return setup{Profile: sopx.Profiles[rnd.Intn(len(sopx.Profiles))], Slot: []int{4, 8}[rnd.Intn(2)]}
 }
 
 func (su setup) options(name string) sop.StoreOptions {
@@ -345,6 +344,9 @@ func runCase(seed int64, mode sop.TransactionMode, seq []Sym) (res caseResult) {
 			})
 		}
 		m.advance(s, o, stillBegun, curKey, curSet, cursorNow, store != nil)
+		if strings.HasPrefix(rec.Verdict, "VIOLATION") {
+			m.Anomaly = true
+		}
 		res.Calls = append(res.Calls, rec)
 	}
 
@@ -509,7 +511,7 @@ func callMethod(b btree.BtreeInterface[string, string], s Sym, curKey string, id
 
 const rule = "case = (transaction mode, call sequence); sequences over 32 symbols (6 lifecycle calls, OpenBtree, NewBtree existing/fresh, 22 BtreeInterface methods, 1 getter bundle) " +
 	"explored breadth first up to the tier's length, pruned by equivalence of the reference machine's extended state " +
-	"(phase, pristine, store opened, cursor set, dirty, writes after phase 1, Close called, how the transaction ended): K sequences kept per class, each extended by every symbol; " +
+	"(phase, pristine, store opened, cursor set, dirty, writes after phase 1, Close called, fresh store created, an earlier call contradicted its prediction, how the transaction ended): K sequences kept per class, each extended by every symbol; " +
 	"fingerprint = (mode, extended state before the last call, last call); non-trivial = the last call carried a must-fail/must-succeed prediction or the sequence reached a commit/rollback with the data oracle applied"
 
 var assumptions = []string{
@@ -518,7 +520,7 @@ var assumptions = []string{
 	"Count/GetStoreInfo/IsUnique/GetCurrentKey are getters: exercised, counted, never judged",
 	"a store-op error between Begin and the end is not judged (the statement says 'only', not 'always'); whether the transaction is still open afterwards is read from HasBegun()",
 	"persisted contents are read after ending a still-open transaction with Rollback (so the store count written in phase 1 - property C03 - is not observed here); in ForWriting mode only the items of the seeded store are judged, the set of stores only in ForReading/NoCheck",
-	"sequences run in-process on 8 workers; a call that panics is recorded as a side observation, not as success or failure",
+	"sequences run in-process on 12 workers; a call that panics is recorded as a side observation, not as success or failure",
 }
 
 type job struct {
@@ -622,9 +624,9 @@ func Run(r *report.Run) int {
 		return replayOne(r)
 	}
 	maxLen := r.Pick(5, 7)
-	keep := r.Pick(1, 3)
+	keep := r.Pick(1, 4)
 	modes := []sop.TransactionMode{sop.NoCheck, sop.ForReading, sop.ForWriting}
-	workers := 8
+	workers := 12
 
 	type rep struct {
 		seq   []Sym
@@ -784,6 +786,18 @@ func Run(r *report.Run) int {
 	}
 	if len(storeSetBy) > 0 {
 		r.Set("store_set_changed_by_ending", storeSetBy)
+	}
+	// coverage floor of the central clause: every BtreeInterface method must have been called on a
+	// retained store object after the end of a transaction, and opening must have been tried before Begin
+	for s := SymAdd; s < symCount; s++ {
+		if sites["after-end:"+s.String()+":must-fail"] == 0 {
+			r.Broken("method %s was never exercised after the end of a transaction", s)
+		}
+	}
+	for _, s := range []Sym{SymOpen, SymNewExisting, SymNewFresh} {
+		if sites["before-begin:"+s.String()+":must-fail"] == 0 || sites["after-end:"+s.String()+":must-fail"] == 0 {
+			r.Broken("%s was not exercised before Begin and after the end", s)
+		}
 	}
 	r.Set("max_sequence_length", maxLen)
 	r.Set("kept_per_state_class", keep)
